@@ -52,6 +52,12 @@ def _digest(key) -> bytes:
 
 
 # --------------------------------------------------------------------------- scope
+def _level_labels(name, L):
+    """Default string labels of a categorical factor with L (1..9) levels, in level order."""
+    pool = list(mf.LEVEL_POOL[name])
+    return (pool + [f"{name.lower()}{k}" for k in range(len(pool) + 1, L + 1)])[:L]
+
+
 def _is_cat(t):
     return t.startswith("cat")
 
@@ -109,7 +115,8 @@ def _frames_for(types, seed, integer, scheme=None):
     if key not in _FRAMES:
         names = _factor_names(types)
         if scheme is None:
-            cats = [(names[i], int(t[3]), "category" if i % 2 == 0 else "object") for i, t in enumerate(types) if _is_cat(t)]
+            cats = [(names[i], int(t[3]), "category" if i % 2 == 0 else "object", _level_labels(names[i], int(t[3])))
+                    for i, t in enumerate(types) if _is_cat(t)]
         else:
             cats = [_scheme_column(names[i], int(t[3]), scheme) for i, t in enumerate(types) if _is_cat(t)]
         nums = [names[i] for i, t in enumerate(types) if not _is_cat(t)]
@@ -132,7 +139,7 @@ def _factor_text(name, typ, contrast, scheme=None):
         # plain numpy int/bool columns are categorical only through C(...)
         return f"C({name})" if scheme is not None and scheme.startswith("raw-") else name
     if contrast.startswith("contr.treatment(base"):
-        lv = mf.LEVEL_POOL[name][min(1, int(typ[3]) - 1)]
+        lv = _level_labels(name, int(typ[3]))[min(1, int(typ[3]) - 1)]
         return f"C({name}, contr.treatment(base={lv!r}))"
     return f"C({name}, {contrast})"
 
@@ -529,6 +536,30 @@ def run_bounded(ctx):
               + ", all term sets <=3 terms",
     ) as b:
         _scope(ctx, b, units, True, "literal-multiplier")
+
+    # ---- scope 1f: the NUMBER OF LEVELS as a grid dimension for every built-in contrast (codings whose shape, names and
+    # entries depend on the level count: poly degrees, helmert/diff ladders, ...).  SVD ranks (codings are not integer).
+    units = []
+    level_grid = range(2, 9)
+    for contrast in CONTRASTS:
+        for L in level_grid:
+            shapes = [((f"cat{L}",), 1), (("num", f"cat{L}"), 3), ((f"cat{L}", "cat2"), 3 if ctx.thorough else 2)]
+            if ctx.thorough:
+                shapes += [((f"cat{L}", "cat3"), 2), (("num", "cat2", f"cat{L}"), 2)]
+            for types, max_terms in shapes:
+                for terms in _term_sets(len(types), max_terms):
+                    units.append((types, terms, seed, False, contrast, "none", False, ("first", "off"), None))
+    with ctx.bounded(
+        "rank-span-contrasts-level-counts-svd",
+        rule="every categorical factor written C(X, <contrast>), the first one with L = 2..8 levels; shapes: alone, with a "
+             "numeric (x, C(A):x, main effect + interaction), next to another categorical; ranks by SVD on column-normalised "
+             f"matrices (singular values <= {SVD_RTOL} * sigma_max are zero)",
+        exhaustive=True,
+        bound=f"contrasts {CONTRASTS}; L in 2..8; type tuples (L), (numeric, L) with <=3 terms, (L, 2 levels) with <="
+              + ("3 terms, (L, 3 levels) and (numeric, 2 levels, L) with <=2 terms" if ctx.thorough else "2 terms")
+              + "; all term sets, every permutation, intercept first/absent",
+    ) as b:
+        _scope(ctx, b, units, False, "contrast-level-counts")
 
     if ctx.thorough:
         rng = random.Random(seed + 3)
